@@ -39,6 +39,7 @@ Matches(g, p) ==
     [] g.form = "dir"    -> Len(p.dirs) >= Len(g.arg) /\ SubSeq(p.dirs, 1, Len(g.arg)) = g.arg
     [] g.form = "name"   -> p.base = g.arg
     [] g.form = "exact"  -> p = g.arg
+    [] g.form = "exactdir" -> FALSE               \* the exact path of a DIRECTORY: no file has that path (the files under it do not match)
     [] g.form = "all"    -> TRUE
     [] g.form = "set"    -> p \in g.arg          \* (trace validation: the logged allow / ignore decisions)
 
